@@ -88,6 +88,10 @@ def run():
     f = u.func("alias"); A = poly.Analysis(f).run()
     for r, st, v in retval(A, f):
         claim("alias", "a->bufpos == 1 after b->bufpos = 5", v is not None and A.holds(st, "==", v, Lin.const(1)), False)
+    for fn, want in (("alias_types", True), ("alias_same", False), ("alias_char", False)):
+        f = u.func(fn); A = poly.Analysis(f).run()
+        for r, st, v in retval(A, f):
+            claim(fn, "*a == 5 after a store through the other pointer", v is not None and A.holds(st, "==", v, Lin.const(5)), want)
     # quarter
     f = u.func("quarter"); A = poly.Analysis(f, unsigned_terms={P(f, "a"), P(f, "n")}).run(); a, nn = Lin.var(P(f, "a")), Lin.var(P(f, "n"))
     for r, st, v in retval(A, f):
